@@ -168,6 +168,7 @@ std::string workDir() {
 int g_resultFd = 1;
 
 void emitResultAndExit(const Result& res) {
+    if (g_resultFd < 0) _exit(res.verdict == "ok" ? 0 : 3); // auxiliary process: no result line
     std::string j = res.toJson() + "\n";
     size_t off = 0;
     while (off < j.size()) {
